@@ -284,7 +284,7 @@ fn run_binary(r: &mut Report, ct: Ct, s: &Script, rt: &ConjureRuntime) {
 
 const TRAILERS: [&[u8]; 16] = [b" ", b"\n", b"0", b"x", b",", b"]", b"}", b"\"", b"\0", b"\xff", b" x", b" 1", b"\n\n", b" null", b"[]", b"\t\r\n "];
 
-fn catalogue(valid: &[&str]) -> Vec<Vec<u8>> {
+pub fn catalogue(valid: &[&str]) -> Vec<Vec<u8>> {
     let mut out: Vec<Vec<u8>> = vec![];
     for v in valid {
         let b = v.as_bytes();
@@ -328,7 +328,7 @@ macro_rules! for_types {
     };
 }
 
-fn uniform(body: &[u8], c: usize) -> Script {
+pub fn uniform(body: &[u8], c: usize) -> Script {
     body.chunks(c).map(|x| Ev::Chunk(x.to_vec())).collect()
 }
 
